@@ -43,6 +43,7 @@ func init() {
 	scanKinds["global_const_slice"] = scanGlobalConstSlice
 	scanKinds["global_newint"] = scanGlobalNewInt
 	scanKinds["handler_census"] = scanHandlerCensus
+	scanKinds["only_callers"] = scanOnlyCallers
 }
 
 func (P *Program) ssaPkg(rel string) *ssa.Package {
@@ -262,4 +263,64 @@ func scanHandlerCensus(P *Program, sp ScanSpec) []*OblResult {
 		out = append(out, scanResult(sp.Name+".handlers_found", "F8", false, "no MsgServer implementation found in the loaded packages"))
 	}
 	return out
+}
+
+// only_callers (F8 writers census): the static callers of function Args[callee] (canonical name) in
+// the loaded packages are exactly the functions in List.
+func scanOnlyCallers(P *Program, sp ScanSpec) []*OblResult {
+	callee := sp.Args["callee"]
+	found := map[string]bool{}
+	exists := false
+	for fn := range ssautil.AllFunctions(P.SSA) {
+		if CanonName(fn) == callee {
+			exists = true
+		}
+		if fn.Synthetic != "" {
+			continue // compiler-made wrappers (pointer-receiver thunks, bound methods)
+		}
+		for _, b := range fn.Blocks {
+			for _, in := range b.Instrs {
+				var cc *ssa.CallCommon
+				switch c := in.(type) {
+				case *ssa.Call:
+					cc = c.Common()
+				case *ssa.Defer:
+					cc = c.Common()
+				case *ssa.Go:
+					cc = c.Common()
+				}
+				if cc == nil {
+					continue
+				}
+				if f := cc.StaticCallee(); f != nil && CanonName(f) == callee {
+					found[CanonName(fn)] = true
+				}
+			}
+		}
+	}
+	if !exists {
+		return []*OblResult{scanResult(sp.Name, "F8", false, "function not found: "+callee)}
+	}
+	want := map[string]bool{}
+	for _, w := range sp.List {
+		want[w] = true
+	}
+	var extra, missing []string
+	for f := range found {
+		if !want[f] && !strings.Contains(f, "_test") {
+			extra = append(extra, f)
+		}
+	}
+	for w := range want {
+		if !found[w] {
+			missing = append(missing, w)
+		}
+	}
+	if len(extra) > 0 {
+		return []*OblResult{scanResult(sp.Name, "F8", false, fmt.Sprintf("%s is also called from %v (census lists %v)", callee, extra, sp.List))}
+	}
+	if len(missing) > 0 {
+		return []*OblResult{scanResult(sp.Name, "F8", false, fmt.Sprintf("%s is no longer called from %v", callee, missing))}
+	}
+	return []*OblResult{scanResult(sp.Name, "F8", true, fmt.Sprintf("callers of %s: %v", callee, sp.List))}
 }
